@@ -29,7 +29,7 @@ var labelPool = []string{"a", "b", "c", "a_1", "-", "-", "zz"}
 
 func gen(r *hx.Rand, tier string, i int) string {
 	prm := 1
-	if tier == "thorough" && r.Chance(1) {
+	if tier == "thorough" && r.Intn(1000) < 2 {
 		prm = 0
 	} else if r.Chance(5) {
 		prm = 2
